@@ -78,6 +78,16 @@ void Apply(MeshGL64& g, const json& f) {
   if (c == "lenDiff") g.mergeToVert.pop_back();
   if (c == "fromOOB") g.mergeFromVert[0] = nv;
   if (c == "toEqN") g.mergeToVert[0] = nv;
+  if (c == "toEqNall") {
+    // EVERY property vertex of one geometric vertex is merged onto the first index
+    // past the end: the merged topology stays manifold, so only the bounds check
+    // stands between this input and an out-of-bounds vertex access
+    const uint64_t v = g.mergeToVert[0];
+    for (auto& t : g.mergeToVert)
+      if (t == v) t = nv;
+    g.mergeFromVert.push_back(v);
+    g.mergeToVert.push_back(nv);
+  }
   if (c == "toHuge") g.mergeToVert[0] = HUGE_IDX;
   if (c == "selfLoop") g.mergeToVert[0] = g.mergeFromVert[0];
   c = cls("tris");
